@@ -269,10 +269,33 @@ func runFlavoured(c *c12case) []*c12event {
 		return nil
 	}
 	var evs []*c12event
-	for _, flv := range []string{"A", "B"} {
+	for _, flv := range []string{"A", "B", "C"} {
 		elem := map[string]any{}
 		any1 := false
+		evElem := c.Elem
+		if flv == "C" {
+			// "x in list" with the SAME reflected value as a member of the list: k as a struct / array, j = [k]
+			var kAbs *Abs
+			for i, k := range c.Elem.K {
+				if bstr(k) == "k" {
+					kAbs = c.Elem.Items[i]
+				}
+			}
+			if c.Ast.Op != "in" || kAbs == nil {
+				continue
+			}
+			fv, ok := flavoured(kAbs, "A")
+			if !ok {
+				continue
+			}
+			evElem = &Abs{T: "obj", K: [][]int{{'j'}, {'k'}}, Items: []*Abs{{T: "arr", Items: []*Abs{kAbs}}, kAbs}}
+			elem["k"], elem["j"] = fv, []any{fv}
+			any1 = true
+		}
 		for i, k := range c.Elem.K {
+			if flv == "C" {
+				break
+			}
 			key := bstr(k)
 			if fv, ok := flavoured(c.Elem.Items[i], flv); ok && (key == "k" || key == "j") {
 				elem[key] = fv
@@ -282,7 +305,7 @@ func runFlavoured(c *c12case) []*c12event {
 			}
 		}
 		if !any1 {
-			return nil
+			continue
 		}
 		rootMembers, _ := c.Root.Simple().(map[string]any)
 		ast := c.Ast
@@ -304,7 +327,7 @@ func runFlavoured(c *c12case) []*c12event {
 				return len(got) == 1, nil
 			})},
 		}
-		ev := &c12event{Flv: flv, Ast: c.Ast, Elem: c.Elem, Root: c.Root, Text: c.Ast.Text(), Src: c.Src}
+		ev := &c12event{Flv: flv, Ast: c.Ast, Elem: evElem, Root: c.Root, Text: c.Ast.Text(), Src: c.Src}
 		idx := map[string]int{}
 		for _, r := range rs {
 			key := r.rt + "|" + strconv.Itoa(r.o.r) + "|" + r.o.m
